@@ -63,27 +63,48 @@ def is_null_valued(v):
 
 
 _DATE = re.compile(r'^(\d{4})-(\d{2})-(\d{2})'
-                   r'(?:[ T](\d{2}):(\d{2}):(\d{2})(?:\.(\d+))?)?$')
+                   r'(?:[ T](\d{2}):(\d{2}):(\d{2})(?:\.(\d+))?'
+                   r'([-+]\d{2}:\d{2})?)?$')
 
 
 def parse_instant(s):
     """datetime for the ISO-like spellings whose meaning nobody disputes
-    (date; date + HH:MM:SS; the same with exactly six fractional digits);
-    UNSPEC for any other number of fractional digits or other spellings (the
-    format document does not define date syntax); None if s is not a string."""
+    (date; date + HH:MM:SS; the same with exactly six fractional digits;
+    each optionally followed by a UTC offset +HH:MM / -HH:MM, which is how
+    Python - and therefore tdda - writes a timezone-aware datetime: the
+    result is then timezone-aware); UNSPEC for any other number of fractional
+    digits or other spellings (the format document does not define date
+    syntax); None if s is not a string."""
     if not isinstance(s, str):
         return None
     m = _DATE.match(s)
     if not m:
         return UNSPEC
-    y, mo, d, h, mi, sec, frac = m.groups()
+    y, mo, d, h, mi, sec, frac, off = m.groups()
     if frac is not None and len(frac) != 6:
         return UNSPEC
+    tz = None
+    if off is not None:
+        minutes = int(off[1:3]) * 60 + int(off[4:6])
+        if minutes >= 24 * 60:
+            return UNSPEC
+        tz = datetime.timezone(datetime.timedelta(
+            minutes=-minutes if off[0] == '-' else minutes))
     try:
         return datetime.datetime(int(y), int(mo), int(d), int(h or 0),
-                                 int(mi or 0), int(sec or 0), int(frac or 0))
+                                 int(mi or 0), int(sec or 0), int(frac or 0),
+                                 tzinfo=tz)
     except ValueError:
         return UNSPEC
+
+
+def same_instant(ia, ib):
+    """two parse_instant results denote the same bound: both naive and
+    equal, or both timezone-aware and the same instant (how the offset is
+    spelt on re-writing is left open)."""
+    if (ia.tzinfo is None) != (ib.tzinfo is None):
+        return False
+    return ia == ib
 
 
 def field_is_date_typed(fc):
@@ -124,7 +145,7 @@ def same_value(kind, a, b, date_typed):
         ia, ib = parse_instant(a), parse_instant(b)
         if ia is UNSPEC or ib is UNSPEC:
             return UNSPEC if date_typed else False
-        return ia == ib
+        return same_instant(ia, ib)
     if isinstance(a, list):
         if not isinstance(b, list):
             return False
